@@ -310,6 +310,36 @@ func (x *Exec) rangeStream(n *ast.RangeStmt, rv *Val, st *St, fr *Frame, k func(
 			return
 		}
 		x.applyRecords(body, sc, penv, n.Pos(), false)
+		if leavesLoopEarly(n.Body) {
+			// Leaving a range over an iterator function before it is exhausted makes the producer's yield return false;
+			// a producer that yields again after that panics at run time. The stream contract must exclude it: with the
+			// stop flag set (if the stream has one), no further yield may be possible, i.e. the stream's requires
+			// clauses must be unsatisfiable in the state after this value was recorded.
+			ex := body.clone()
+			if sc.Stops != "" {
+				if g, ok := x.W.GhostVars[sc.Stops]; ok {
+					ex.heap[g.Key] = True
+				}
+			}
+			names2 := map[string]*Val{}
+			if sig != nil && sig.Params().Len() == 1 {
+				if ysig, ok := sig.Params().At(0).Type().Underlying().(*types.Signature); ok {
+					for i := 0; i < ysig.Params().Len() && i < len(sc.Params); i++ {
+						names2[sc.Params[i]] = x.freshVal(ex, "iter.next", ysig.Params().At(i).Type())
+					}
+				}
+			}
+			bindSubjects(sc, rv.Subj, names2)
+			env2 := &CEnv{X: x, Names: names2, St: ex, Pkg: x.Fn.Pkg}
+			x.wrapCfail("stream "+name, func() {
+				for _, r := range sc.Requires {
+					x.assume(ex, env2.HypFormula(r.Expr))
+				}
+			})
+			x.emit(ex, oblTemplate{kind: "range-exit", label: "exit", pos: x.W.pos(n.Pos()),
+				clause: "the loop may be left before the iterator is exhausted: stream " + name + " must not allow a yield after that (its requires clauses are unsatisfiable once this value was recorded and the stop flag is set)",
+				name:   x.Fn.Key + "/range#" + name + "/exit"}, nil, False)
+		}
 		if n.Key != nil && len(vals) > 0 {
 			x.assignTo(n.Key, vals[0], body, fr, define)
 		}
@@ -489,4 +519,52 @@ func (x *Exec) applyRecords(st *St, sc *Contract, env *CEnv, p token.Pos, check 
 			st.heap[g.Key] = nw
 		}
 	})
+}
+
+
+// leavesLoopEarly: the body of a range statement contains a statement that leaves the loop before the range is
+// exhausted (return, goto, a labelled break or continue, or a break that is not nested in an inner loop / switch / select).
+func leavesLoopEarly(body *ast.BlockStmt) bool {
+	found := false
+	var walk func(n ast.Node, inner bool)
+	walk = func(n ast.Node, inner bool) {
+		ast.Inspect(n, func(m ast.Node) bool {
+			if found || m == nil {
+				return false
+			}
+			switch s := m.(type) {
+			case *ast.FuncLit:
+				return false
+			case *ast.ReturnStmt:
+				found = true
+			case *ast.BranchStmt:
+				switch {
+				case s.Tok == token.GOTO, s.Label != nil && (s.Tok == token.BREAK || s.Tok == token.CONTINUE):
+					found = true
+				case s.Tok == token.BREAK && !inner:
+					found = true
+				}
+			case *ast.ForStmt:
+				walk(s.Body, true)
+				return false
+			case *ast.RangeStmt:
+				if m != ast.Node(body) {
+					walk(s.Body, true)
+					return false
+				}
+			case *ast.SwitchStmt:
+				walk(s.Body, true)
+				return false
+			case *ast.TypeSwitchStmt:
+				walk(s.Body, true)
+				return false
+			case *ast.SelectStmt:
+				walk(s.Body, true)
+				return false
+			}
+			return true
+		})
+	}
+	walk(body, false)
+	return found
 }
